@@ -365,6 +365,33 @@ def ishermDia (conjEq : R → R → Bool) (isZero : R → Bool) (m : Dia R) : Bo
     | none => true
 end diaHerm
 
+/-! ### `trace_dia`, `expect_dia` -/
+section diaExpect
+variable {R : Type} [Add R] [Mul R] [OfNat R 0]
+
+/-- `trace_dia`: the values of the first stored diagonal of offset 0 -/
+def traceDia (m : Dia R) : R :=
+  match m.diags.find? (fun d => d.1 == 0) with
+  | some d => ((List.range m.cols).map fun j => d.2 j).sum
+  | none => 0
+
+/-- `expect_dia` for a ket: the triple loop of `inner_op_dia` with the state on both sides -/
+def expectDiaKet (conj : R → R) (op state : Dia R) : R := innerOpDiaCore conj true state op state
+
+/-- `expect_dia` for a density matrix: every stored diagonal of `op` against the stored diagonal of `state` with the
+opposite offset, over the overlap of their ranges -/
+def expectDiaDm (op state : Dia R) : R :=
+  (op.diags.map fun dop => (state.diags.map fun ds =>
+    if dop.1 = -ds.1 then
+      let startOp := max 0 dop.1
+      let startSt := max 0 ds.1
+      let endOp := min (op.cols : Int) ((op.rows : Int) + dop.1)
+      let endSt := min (state.cols : Int) ((state.rows : Int) + ds.1)
+      ((List.range (min (endOp - startOp) (endSt - startSt)).toNat).map fun i =>
+        dop.2 (i + startOp.toNat) * ds.2 (i + startSt.toNat)).sum
+    else 0).sum).sum
+end diaExpect
+
 /-! ### the dispatcher: a specialisation built from a registered one and conversions -/
 
 /-- converters between formats preserve the matrix; `Repr f` is the carrier of format `f` -/
